@@ -94,31 +94,53 @@ def impl_lr(bl, names, sub):
         return 'EXN F|%s' % type(e).__name__
 
 def real_streams(bl, inputs):
-    """for each input: (input, verdict of parsesingle, terminal names the TOP-LEVEL tokenizer delivered to the engine).
-    The names are taken from `ttype`, the classification the tokenizer decided on - what the engine is told must be that."""
+    """for each input: (input, verdict of parsesingle, terminal names the TOP-LEVEL tokenizer delivered to the engine,
+    [(declared mode, raw terminal names) of every nested parser]).
+    The names are taken from `ttype`, the classification the tokenizer decided on - what the engine is told must be that.
+    Declared mode of a nested parser: 'sub' when it was created through _parsedolparen ($( ), <( ), >( ): ends at the closing
+    parenthesis), 'top' otherwise (backquotes: a list up to the end of the text).  Raw = as returned by _readtoken, before
+    token() turns the parser's end token into EOF."""
     T = bl.tokenizer.tokenizer
-    orig = T.token
-    rec = {}; order = []
+    S = bl.subst
+    orig_token, orig_read, orig_init = T.token, T._readtoken, T.__init__
+    orig_dol, orig_rec = S._parsedolparen, S._recursiveparse
+    rec = {}; order = []; raw = {}; modes = {}; st = {'pending': None, 'next': None}
     def token(self):
-        t = orig(self)
+        t = orig_token(self)
         k = id(self)
         if k not in rec: rec[k] = []; order.append(k)
         rec[k].append(getattr(getattr(t, 'ttype', None), 'name', 'None'))
         return t
-    T.token = token
+    def readtoken(self):
+        t = orig_read(self)
+        tt = t if isinstance(t, bl.tokenizer.tokentype) else getattr(t, 'ttype', None)
+        raw.setdefault(getattr(self, '_verif_key', 0), []).append(getattr(tt, 'name', 'None'))
+        return t
+    def init(self, *a, **k):
+        orig_init(self, *a, **k)
+        st['n'] = st.get('n', 0) + 1; self._verif_key = st['n']         # (object ids are reused within one call)
+        modes[self._verif_key] = st['next'] or 'outer'; st['next'] = None
+    def dol(*a, **k):
+        st['pending'] = 'sub'
+        return orig_dol(*a, **k)
+    def recp(*a, **k):
+        st['next'] = st['pending'] or 'top'; st['pending'] = None
+        return orig_rec(*a, **k)
+    T.token = token; T._readtoken = readtoken; T.__init__ = init; S._parsedolparen = dol; S._recursiveparse = recp
     out = []
     try:
         for s in inputs:
-            rec.clear(); del order[:]
+            rec.clear(); del order[:]; raw.clear(); modes.clear(); st['pending'] = st['next'] = None
             try:
                 r = bl.parsesingle(s); verdict = 'ACC' if r is not None else 'BLANK'
             except bl.errors.ParsingError as e:
                 # only p_error's messages are verdicts of the engine; the tokenizer's own errors (unterminated quote, here-document) are not
                 verdict = 'REJ' if (e.message.startswith('unexpected token') or e.message == 'unexpected EOF') else 'OTHER'
             except Exception: verdict = 'OTHER'
-            out.append((s, verdict, list(rec[order[0]]) if order else []))
+            nested = [(modes.get(k), list(v)) for k, v in raw.items() if modes.get(k) in ('sub', 'top')]
+            out.append((s, verdict, list(rec[order[0]]) if order else [], nested))
     finally:
-        T.token = orig
+        T.token = orig_token; T._readtoken = orig_read; T.__init__ = orig_init; S._parsedolparen = orig_dol; S._recursiveparse = orig_rec
     return out
 
 def norm_model(line):
@@ -237,13 +259,37 @@ def run(ctx):
     # ---- the engine on real token streams: what the tokenizer classified is what the grammar decides on ----
     if not ctx.get('replay') or 'input' in json.load(open(ctx['replay'])):
         ins = common.dedup(common.corpus_inputs() + common.random_scripts(seed, 1500 if tier == 'quick' else 20000, mutate=1, unsupported=0))
+        # nested parsers in both modes with bodies that are not sentences of their mode (a stray closing parenthesis and the like)
+        ins += [c % b for c in ['$(`%s`)', '$(a `%s`)', '<(`%s`)', '"$(`%s`)"', '$(x $(`%s`))', '`%s`', 'a `%s` b', '$(%s)', '`$(%s)`', 'a $(b `c $(%s)`)', 'case x in a) `%s`;; esac', '$(case x in a) `%s`;; esac)']
+                for b in ['b)', 'b) c', 'b; c) d', 'b ) &&', 'a )', 'a;)', '(a))', 'a | b)', 'b)c', 'a &)', 'a; b', 'a && b', '(a)', 'a;', 'fi', 'a; }', 'do a']]
         if ctx.get('replay'): ins = [json.load(open(ctx['replay']))['input']]
         # (here-documents are read by the tokenizer from the text; the token-level engine has none)
         streams = [x for x in real_streams(bl, [s for s in ins if '<<' not in s]) if x[1] in ('ACC', 'BLANK', 'REJ') and all(n in tid for n in x[2]) and not any(n.startswith('LESS_LESS') for n in x[2] if n != 'LESS_LESS_LESS')]
-        rl = ['lr\ttop\t%s' % '.'.join(str(tid[n]) for n in names) for _, _, names in streams]
+        rl = ['lr\ttop\t%s' % '.'.join(str(tid[n]) for n in names) for _, _, names, _ in streams]
         rr = []
         for k in range(0, len(rl), 20000): rr += runner.model_batch(rl[k:k + 20000])
-        for (src, verdict, names), rep in zip(streams, rr):
+        # nested parsers of accepted inputs: each accepted its own stream, in its declared mode
+        nl = []; nmeta = []
+        for (src, verdict, names, nested) in streams:
+            if verdict != 'ACC': continue
+            for mode, nn in nested:
+                if nn and all(n in tid for n in nn) and not any(n.startswith('LESS_LESS') and n != 'LESS_LESS_LESS' for n in nn):
+                    nl.append('lr\t%s\t%s' % (mode, '.'.join(str(tid[n]) for n in nn))); nmeta.append((src, mode, nn))
+        nr = []
+        for k in range(0, len(nl), 20000): nr += runner.model_batch(nl[k:k + 20000])
+        for (src, mode, nn), rep in zip(nmeta, nr):
+            classes['nested-stream:' + mode] += 1
+            if not rep.startswith('ACC') and not rep.startswith('BLANK'):
+                sig = 'accepts-underivable:real-tokens:nested-' + mode
+                sig_count[sig] += 1
+                fid = common.match_finding(findings, sig, src)
+                if fid: finding_hits.setdefault(fid, src[:80])
+                elif len(violations) < 25 and not any(v['signature'] == sig for v in violations):
+                    violations.append(dict(property=prop, input=src, tokens=nn, mode=mode, signature=sig, impl='ACC', model_engine=rep[:200],
+                                           how='the input was accepted, so every nested parser accepted its token stream (raw terminal names recorded from _readtoken); the Lean '
+                                               'engine on the regenerated tables rejects that stream in the mode the construct declares (sub: $( ) <( ) >( ); top: backquotes)'))
+        lines = lines + nl
+        for (src, verdict, names, _nested), rep in zip(streams, rr):
             mv = 'ACC' if rep.startswith('ACC') else 'BLANK' if rep.startswith('BLANK') else 'REJ' if rep.startswith('EXN PE') else 'OTHER'
             classes['real-stream:' + verdict] += 1
             sig = None
